@@ -12,6 +12,7 @@ def dispatch (j : Json) : Except String Json := do
   | "sim" => cmdSim j
   | "basic" => cmdBasic j
   | "ops" => cmdOps j
+  | "adder" => cmdAdder j
   | "sanity" => cmdSanity j
   | "topo" => cmdTopo j
   | _ => throw s!"unknown cmd {cmd}"
